@@ -147,7 +147,7 @@ class C09(Prop):
             "assignments checked; non-trivial = ground program with a cycle or an AD constraint or >= 3 atoms; instances "
             "with more atoms than the tier bound have only their structural checks (weights, names, constraints) judged")
     families = {"quick": [("FDUP", 4), ("FR", 8), ("F1.3e", 16), ("FC3g", 128), ("FC3m", 16), ("FT", 4), ("FC3", 16), ("F3.2", 96), ("F2.3", 48), ("F1.3s", 32), ("F1.2", 96), ("F3.1", 8), ("F2.2", 8), ("F1.1", 4)],
-                "thorough": [("FR", 8), ("F1.3e", 16), ("FDUP", 4), ("FC3g", 128), ("FC3m", 16), ("FT", 4), ("FC3", 16), ("F3.3", 512), ("F2.4", 256), ("F1.3", 1024), ("F3.2", 96), ("F2.3", 48), ("F1.3s", 32),
+                "thorough": [("FR", 8), ("F1.3e", 16), ("FDUP", 4), ("FC3g", 128), ("FC3m", 16), ("FT", 4), ("FC3", 16), ("F3.3", 512), ("F2.4", 256), ("F1.3/16", 512), ("F3.2", 96), ("F2.3", 48), ("F1.3s", 32),
                              ("F1.2", 128), ("F3.1", 8), ("F2.2", 8), ("F1.1", 4)]}
     budget = {"quick": 300, "thorough": 2400}
     variants = [None, {"propagate_evidence": True}]
